@@ -104,11 +104,20 @@ pub fn kf2_applicable(b: &Built) -> bool {
 }
 
 fn set_jitter(b: &Built, schedule: &[u16]) {
-    for i in 0..b.flat.sys.len() {
+    let n = b.flat.sys.len();
+    for i in 0..n {
         let a = schedule.get(2 * i).cloned().unwrap_or(0) % 6;
         let c = schedule.get(2 * i + 1).cloned().unwrap_or(0) % 6;
         b.ctx.jitter_begin[i].store(a as u32, SeqCst);
         b.ctx.jitter_run[i].store(c as u32, SeqCst);
+    }
+    // in half of the free runs one generated system is much slower than its running-time hint says
+    // (a few milliseconds inside run, in every repetition)
+    if n > 0 {
+        let pick = schedule.last().cloned().unwrap_or(0) as usize;
+        if pick % 2 == 1 {
+            b.ctx.jitter_run[(pick / 2) % n].store(1500, SeqCst);
+        }
     }
 }
 
